@@ -21,7 +21,8 @@ RULE = ('Every name of get_functions() except ARRAY/ARRAYROW (aliases _XLFN./_XL
         'Python-float spellings; TRUE/FALSE; the 7 errors; blank reference; 1x1 references of every kind; ranges 1xn/mx1/mxn with '
         'blanks, text and errors; array literals 1x1/1xn/mx1/mxn), plus the "diagonal" (all positions the same pool value). '
         'Part "random": seeded random tuples per function (kinds per position drawn independently, arrays at element-wise positions '
-        'shape-compatible, at whole-argument positions arbitrary). Each tuple is evaluated as Cell("A1","=F(args)") in a '
+        'shape-compatible, at whole-argument positions arbitrary; quick 40, thorough 2000 tuples per name). The sweep also holds the '
+        'two excluded non-termination inputs, each run once in a killable child process. Each tuple is evaluated as Cell("A1","=F(args)") in a '
         'Dispatcher(raises=True) (literals in the formula text, references as Ranges inputs) and as get_functions()[F](*args). '
         'Asserted: no exception / failed dispatch / missing output; every element of the result is an Excel value; for functions and '
         'positions outside the exempt list, replacing a scalar argument by an error value makes every element of the result an error, '
@@ -38,7 +39,7 @@ ASSUMPTIONS = [
     'omitted (empty) arguments and date/currency/percent-looking text are not generated (locale dependent)',
     'which error value comes back is not asserted (C12), only that it is an error']
 
-WATCHDOG_S = 30
+WATCHDOG_S = 60
 ERR_CYCLE = ['#N/A', '#DIV/0!', '#REF!']
 
 # ---------------------------------------------------------------- exemptions of the error-propagation clause
@@ -471,28 +472,41 @@ import sys, resource
 resource.setrlimit(resource.RLIMIT_AS, (2 << 30, 2 << 30))
 sys.path.insert(0, %r)
 from vf import sut
+print('READY', flush=True)
 try:
-    r = sut.compile_formula(sys.argv[1])()
-    print('RETURNED', repr(sut.matrix(r))[:200])
+    print('RETURNED', repr(sut.matrix(sut.compile_formula(sys.argv[1])()))[:200], flush=True)
 except BaseException as ex:
-    print('RAISED', type(ex).__name__)
+    print('RAISED', type(ex).__name__, flush=True)
 '''
 
 
 def check_probe(case):
-    f, tmo = case['formula'], case.get('timeout', 5)
+    """One formula in a killable child process (address space limited to 2 GB); the clock starts when the child has
+    imported the package."""
+    f, tmo = case['formula'], case.get('timeout', 4)
     root = os.path.dirname(os.path.dirname(os.path.dirname(os.path.abspath(__file__))))
     env = dict(os.environ, VF_REPO=sut.REPO)
+    p = subprocess.Popen([sys.executable, '-W', 'ignore', '-c', _CHILD % root, f], env=env, stdout=subprocess.PIPE,
+                         stderr=subprocess.DEVNULL, text=True)
     try:
-        r = subprocess.run([sys.executable, '-W', 'ignore', '-c', _CHILD % root, f], env=env, capture_output=True, text=True, timeout=tmo)
-    except subprocess.TimeoutExpired:
-        return R([('hang|%s' % case['fn'], '%s did not return within %s s (child process killed)' % (f, tmo))], nt=True, labels=['probe:hang'])
-    out = (r.stdout or '').strip()
+        first = p.stdout.readline().strip()
+        if first != 'READY':
+            p.wait()
+            return R([('raise|%s|child-setup' % case['fn'], '%s: child said %r rc=%s' % (f, first, p.returncode))], nt=True, labels=['probe:hang'])
+        try:
+            out, _ = p.communicate(timeout=tmo)
+        except subprocess.TimeoutExpired:
+            return R([('hang|%s' % case['fn'], '%s did not return within %s s (child process killed)' % (f, tmo))], nt=True, labels=['probe:hang'])
+    finally:
+        if p.poll() is None:
+            p.kill()
+            p.wait()
+    out = (out or '').strip()
     fails = []
     if out.startswith('RAISED'):
         fails.append(('raise|%s|%s|child' % (case['fn'], out.split()[-1]), '%s: %s' % (f, out)))
     elif not out.startswith('RETURNED'):
-        fails.append(('hang|%s|died' % case['fn'], '%s: child died rc=%s %s' % (f, r.returncode, (r.stderr or '')[-200:])))
+        fails.append(('hang|%s|died' % case['fn'], '%s: child died rc=%s' % (f, p.returncode)))
     return R(fails, nt=True, labels=['probe:hang'])
 
 
@@ -611,6 +625,7 @@ def sweep_cases(tier):
     shapes = ref1_pool() + range_pool() + array_pool()
     full = ([S(v) for v in QUICK_SCALARS] if q else scalar_pool()) + shapes
     small = small_pool()
+    yield from PROBES  # the excluded non-termination inputs, each once, in a killable child process
     for name in names():
         ars = T.arities(name)
         if q and len(ars) > 7:
@@ -710,13 +725,11 @@ def random_cases(tier, seed, per_fn):
             yield _call(name, args)
 
 
-PROBES = [{'k': 'probe', 'fn': 'ROUND', 'formula': '=ROUND(1,1E+300)', 'timeout': 5},
-          {'k': 'probe', 'fn': 'FACT', 'formula': '=FACT(1E+9)', 'timeout': 5}]
+PROBES = [{'k': 'probe', 'fn': 'ROUND', 'formula': '=ROUND(1,1E+300)', 'timeout': 4},
+          {'k': 'probe', 'fn': 'FACT', 'formula': '=FACT(1E+9)', 'timeout': 4}]
 
 
 def custom(arg, tier, seed, stats, known):
-    from .. import runner
-    mod = sys.modules[__name__]
     if arg == 'notes':
         ns = names()
         unv = sorted(n for n in ns if T.lookup(n)['unverified'])
@@ -726,9 +739,6 @@ def custom(arg, tier, seed, stats, known):
         miss = [n for n in ns if T.lookup(n) is None]
         if miss:
             raise AssertionError('names without an arity entry: %s' % miss)
-        return
-    case = PROBES[arg]
-    runner._account(stats, case, runner.safe_check(mod, case), known)
 
 
 FLOORS = {lb: ('count', {'quick': q, 'thorough': t}) for lb, q, t in [
@@ -742,7 +752,7 @@ FLOORS = {lb: ('count', {'quick': q, 'thorough': t}) for lb, q, t in [
 def parts(tier, seed):
     q = tier == 'quick'
     return [
-        ('custom', 'probes', 'custom', ['notes', 0, 1]),
+        ('custom', 'notes', 'custom', ['notes']),
         ('enum', 'sweep', sweep_cases(tier), 150, True),
-        ('enum', 'random', random_cases(tier, seed, 40 if q else 4000), 150, False),
+        ('enum', 'random', random_cases(tier, seed, 40 if q else 2000), 150, False),
     ]
